@@ -964,6 +964,7 @@ func runC17(c *kc.Ctx) {
 	c17Pick(c)
 	c17HashEd(c)
 	c17HashOthers(c)
+	c17ResidueParams(c)
 }
 
 func init() { register("C17", "proof", runC17) }
